@@ -268,8 +268,8 @@ def rule_launch_loop_error_exit(ctx: Ctx, out: Collector) -> None:
             t = sym.term(ctx.p, test, b.inst)
             D = None
             for s in sym.subterms(t):
-                if isinstance(s, tuple) and s and s[0] == 'call' and s[1] in herr and s[2]:
-                    D = s[2][-1]
+                if isinstance(s, tuple) and s and s[0] == 'call' and s[1] in herr and len(s[2]) >= 2:
+                    D = s[2][1]              # (self, dag, ...)
             if D is None:
                 continue
             # the dag must be the one this activation runs on behalf of its owner: a parameter
@@ -321,7 +321,7 @@ def _dag_is_parameter(ctx: Ctx, b: Ev, herr: set) -> bool:
             if isinstance(n, ast.Call):
                 for t in env.resolve_call(n):
                     if t[0] == 'func' and t[1].fid in herr and n.args:
-                        a = n.args[-1]
+                        a = n.args[0]
                         if isinstance(a, ast.Name):
                             defs = env.local_defs().get(a.id, [])
                             if defs and all(d[0] == 'param' for d in defs):
